@@ -104,6 +104,8 @@ struct Parsed {
     v4: bool,
     l3: usize,
     l4: usize,
+    /// end of the IP packet (bytes behind it are Ethernet padding / a trailer)
+    end: usize,
     proto: u8,
 }
 
@@ -118,16 +120,17 @@ fn parse(f: &[u8]) -> Option<Parsed> {
                 return None;
             }
             let ihl = ((p[0] & 0x0f) as usize) * 4;
-            if ihl < 20 || p.len() < ihl || be16(p, 2) as usize != p.len() || (be16(p, 6) & 0x3fff) != 0 {
+            let tl = be16(p, 2) as usize;
+            if ihl < 20 || tl < ihl || tl > p.len() || (be16(p, 6) & 0x3fff) != 0 {
                 return None;
             }
-            Some(Parsed { v4: true, l3: 14, l4: 14 + ihl, proto: p[9] })
+            Some(Parsed { v4: true, l3: 14, l4: 14 + ihl, end: 14 + tl, proto: p[9] })
         }
         ET_V6 => {
-            if p.len() < 40 || p[0] >> 4 != 6 || be16(p, 4) as usize + 40 != p.len() {
+            if p.len() < 40 || p[0] >> 4 != 6 || be16(p, 4) as usize + 40 > p.len() {
                 return None;
             }
-            Some(Parsed { v4: false, l3: 14, l4: 54, proto: p[6] })
+            Some(Parsed { v4: false, l3: 14, l4: 54, end: 54 + be16(p, 4) as usize, proto: p[6] })
         }
         _ => None,
     }
@@ -156,11 +159,11 @@ fn ipaddrs(f: &[u8], p: &Parsed) -> (std::net::IpAddr, std::net::IpAddr) {
 
 fn tcp_key(f: &[u8]) -> Option<(Key, u16)> {
     let p = parse(f)?;
-    if p.proto != P_TCP || f.len() < p.l4 + 20 {
+    if p.proto != P_TCP || p.end < p.l4 + 20 {
         return None;
     }
     let doff = ((f[p.l4 + 12] >> 4) as usize) * 4;
-    if doff < 20 || f.len() < p.l4 + doff {
+    if doff < 20 || p.end < p.l4 + doff {
         return None;
     }
     let (s, d) = addrs(f, &p);
@@ -179,7 +182,7 @@ fn l4_csum_off(proto: u8) -> Option<usize> {
 
 fn l4_sum(f: &[u8], p: &Parsed) -> u16 {
     let (s, d) = ipaddrs(f, p);
-    let seg = &f[p.l4..];
+    let seg = &f[p.l4..p.end];
     let acc = if p.proto == P_ICMP { 0 } else { pseudo(&s, &d, p.proto, seg.len()) };
     inet_csum(seg, acc)
 }
@@ -214,7 +217,7 @@ fn sibling(f: &[u8], sh: &Shadow, allow_dst: bool, cookies: &HashMap<Key, (Optio
     }
     let p = parse(f)?;
     let co = l4_csum_off(p.proto)?;
-    let l4len = f.len() - p.l4;
+    let l4len = p.end - p.l4;
     let (hdr, is_tcp) = match p.proto {
         P_TCP => {
             if l4len < 20 {
@@ -293,7 +296,7 @@ fn sibling(f: &[u8], sh: &Shadow, allow_dst: bool, cookies: &HashMap<Key, (Optio
     if let Some((k, b)) = sh.pay {
         if p.proto == P_TCP || p.proto == P_UDP {
             let i = p.l4 + hdr + k as usize;
-            if i < g.len() {
+            if i < p.end {
                 g[i] ^= 1 << (b & 7);
             }
         }
